@@ -27,6 +27,20 @@ TRICKY_KW = {
 }
 
 
+class UnhashableCallable:
+    __hash__ = None
+
+    def __init__(self, f):
+        self.f = f
+        self._owner = getattr(f, '_owner', -1)
+
+    def __eq__(self, other):
+        return self is other
+
+    def __call__(self, obj, /, *args, **kwargs):
+        return self.f(obj, *args, **kwargs)
+
+
 class Actors:
     def __init__(self, desper, config, interp):
         it = interp
@@ -48,6 +62,12 @@ class Actors:
             import functools
             ns[m] = functools.partialmethod(ns[m])
             interp.probes['partialmethod_callback'] += 1
+        for m in config.get('uc', []):
+            # callbacks that are callable objects with value equality and
+            # no hash (a dataclass with __call__): registering such a
+            # handler either works or is refused as a whole
+            ns[m] = UnhashableCallable(ns[m])
+            interp.probes['unhashable_callable_callback'] += 1
         ns['_label'] = '?'
 
         def on_add(self, entity, world):
@@ -497,6 +517,21 @@ class Interp:
             return 'skip'
         if s in self.registered:
             self.probes['double_registration'] += 1
+        if self.cfg.get('uc'):
+            try:
+                self.d.add_handler(o)
+            except TypeError as ex:
+                # refused as a whole: what was registered stays as it was
+                ex.__traceback__ = None
+                self.probes['registration_refused'] += 1
+                self.faults['add_handler_refused'] += 1
+                self.trace.add('refused', s)
+                self.touch(s)
+                return None
+            self.arm_finalizer(s, o)
+            self.registered.add(s)
+            self.touch(s)
+            return None
         e = self.guarded(lambda: self.d.add_handler(o), ('C03',),
                          f'add_handler(h{s})')
         self.arm_finalizer(s, o)
@@ -1174,6 +1209,8 @@ def gen_config(prop, rng, allow_base2=False):
         cfg['heq'] = 'equal' if r < .1 else 'unhashable'
     if rng.random() < .12:
         cfg['pm'] = [m for m in METHODS if rng.random() < .5] or ['a']
+    elif prop == 'C03' and dkind == 'plain' and rng.random() < .08:
+        cfg['uc'] = [m for m in METHODS if rng.random() < .4] or ['b']
     if rng.random() < .25:
         cfg['returns'] = {str(s): rng.choice('TTF01sN') for s in range(n)
                           if rng.random() < .6}
